@@ -284,10 +284,8 @@ Definition days_before_month (y m : Z) : Z :=
 Definition ymd2ord (d : date) : Z :=
   days_before_year (Z.of_N (dy d)) + days_before_month (Z.of_N (dy d)) (Z.of_N (dm d)) + Z.of_N (dd d).
 
-(* _ord2ymd *)
-Definition ord2ymd (n : Z) : date :=
-  let n := n - 1 in
-  let n400 := n / 146097 in let n := n mod 146097 in
+(* _ord2ymd: [n400] whole 400-year cycles, then the position [n] inside the cycle *)
+Definition ymd_in_cycle (n400 n : Z) : date :=
   let year := n400 * 400 + 1 in
   let n100 := n / 36524 in let n := n mod 36524 in
   let n4 := n / 1461 in let n := n mod 1461 in
@@ -303,6 +301,7 @@ Definition ord2ymd (n : Z) : date :=
       let preceding := days_before_month (if leap then 4 else 1) month in
       {| dy := Z.to_N year; dm := Z.to_N month; dd := Z.to_N (n - preceding + 1) |}
     else {| dy := Z.to_N year; dm := Z.to_N month; dd := Z.to_N (n - preceding + 1) |}.
+Definition ord2ymd (n : Z) : date := ymd_in_cycle ((n - 1) / 146097) ((n - 1) mod 146097).
 
 Definition max_ord : Z := 3652059.          (* date(9999, 12, 31).toordinal() *)
 Definition epoch_ord : Z := 719163.         (* date(1970, 1, 1).toordinal() *)
@@ -548,3 +547,23 @@ Section Serialized.
   Definition bind_pickle (v : option J) : option W := match v with None => None | Some x => Some (dumps x) end.
   Definition result_pickle (w : option W) : option J := match w with None => None | Some x => Some (loads x) end.
 End Serialized.
+
+(* ================= spec side ================= *)
+(* the type-preserving ways a column can be nested before it reaches the result *)
+Inductive wrapper := WLabel | WSubq | WCte | WUnion (other : cexpr) | WScalar | WReturning | WOrm.
+Definition apply_wrapper (w : wrapper) (e : cexpr) : cexpr :=
+  match w with
+  | WLabel => CLabel e | WSubq => CSubq e | WCte => CCte e | WUnion o => CUnion e o | WScalar => CScalar e
+  | WReturning => CReturning e | WOrm => COrm e
+  end.
+Definition nest (ws : list wrapper) (e : cexpr) : cexpr := fold_right apply_wrapper e ws.
+
+(* decorators whose process_result_value / process_bind_param is overridden *)
+Fixpoint res_ids (t : ty) : list N :=
+  match t with TBase _ => [] | TDec id _ hr impl => if hr then id :: res_ids impl else res_ids impl end.
+Fixpoint bind_ids (t : ty) : list N :=
+  match t with TBase _ => [] | TDec id hb _ impl => if hb then id :: bind_ids impl else bind_ids impl end.
+
+(* CPython's date <-> ordinal conversion inverts itself on the whole date range (library behaviour) *)
+Definition ordinal_law : Prop :=
+  forall n, (1 <= n <= max_ord)%Z -> valid_date (ord2ymd n) = true /\ ymd2ord (ord2ymd n) = n.
